@@ -54,9 +54,7 @@ def j1(out, eng, pr):
             return ok(ty, Int(z3.Extract(31, 0, x.e), 32))
         return err(ty, Obj("TryFromIntError"))
 
-    extra = [(r"^SymbolicValue::<\(\)>::constant_fold$", constant_fold), (r"^KnownWord::value_le$", value_le),
-             (r"^U256::as_u32$", as_u32), (r"^<u32 as TryFrom<U256>>::try_from$", try_from_u256),
-             (r"^<U256 as TryInto<u32>>::try_into$", try_from_u256)]
+    extra = [(r"^SymbolicValue::<\(\)>::constant_fold$", constant_fold), (r"^KnownWord::value_le$", value_le)]
     ex = eng.explorer(extra=extra)
 
     def body(ctx):
@@ -90,7 +88,7 @@ def j1(out, eng, pr):
         r, cell, ctx = p.ret
         known = [e[1] for e in ctx.events if e[0] == "known_value"][0]
         full = ev(model, known)
-        return native.scenario(out, "jump_target_bits", {"high": full >> 32 if full >> 32 else 1})
+        return native.scenario(out, "jump_target_bits", {"target_hex": "%064x" % full})
     verdict(out, pr, "J1.validate_jump_destination", paths, post, replay=replay, key="jump-target-truncated-to-32-bits",
             what="a jump target is accepted only when the full 256-bit constant is the offset of a JUMPDEST inside the code")
     # every rejecting path returns one of the jump-validation errors, located at the current instruction pointer
@@ -125,6 +123,7 @@ def run(out, tier):
                         "reachability-set EQUALITY for loop-free code is outside (needs whole runs)"]
     j1(out, eng, pr)
     j3(out, eng, pr)
+    error_ends_path(out, eng, pr)
     out.extra["solver_queries"] = pr.n_queries
 
 
@@ -260,6 +259,43 @@ def j3(out, eng, pr):
         except Unsupported as e:
             out.obligation("J3.jumpi_explores_both_branches", "mirsmt", "inconclusive", 0, witness=False, note=str(e))
             out.inconc("J3.jumpi: %s" % e)
+
+
+def error_ends_path(out, eng, pr):
+    """In the VM main loop, an instruction that fails (a rejected jump in particular) always ends its path — in strict
+    and in permissive mode — so nothing behind it is executed on that thread."""
+    from . import c17
+    try:
+        paths, ex = c17.main_loop(eng)
+    except Unsupported as e:
+        out.obligation("J3.error_ends_path", "mirsmt", "inconclusive", 0, witness=False, note=str(e))
+        out.inconc("J3.error_ends_path: %s" % e)
+        return
+    n = jumps.vm_names()
+    inv = [c for c in jumps.vm_invariants(n)][:7] + [z3.UGE(c17.POLL, 1)]
+
+    def post(p):
+        ctx = p.ctx
+        ops = [e for e in ctx.events if e[0] == "op"]
+        if not ops or ops[0][1] != "err":
+            return None
+        killed_evt = any(e[0] == "kill" for e in ctx.events)
+        if p.kind == "cut":
+            # the loop continues: the failing thread must have been retired by advance()
+            q = View(ctx).get(ctx.vmcell, "VM", "thread_queue")
+            retired = isinstance(q, Obj) and getattr(q, "popped", 0) >= 1
+            return z3.BoolVal(killed_evt and retired)
+        return z3.BoolVal(True)
+
+    def replay(p, model):
+        located = [e for e in p.ctx.events if e[0] == "op_err"][0][1]
+        kind = located.fields[1].variant
+        if kind in c17.BAD_JUMP:
+            return native.scenario(out, "rejected_jump_falls_through", {"permissive": 1 if ev(model, n["permissive"]) else 0})
+        return native.scenario(out, "halting_opcode", {"opcode": 0x50})
+    verdict(out, pr, "J3.error_ends_path", paths, post, pre=inv, kinds=("cut", "return"), replay=replay,
+            key="failing-instruction-does-not-end-path",
+            what="an instruction that raises an execution error ends its path in both modes (a rejected JUMP never falls through)")
 
 
 def jumps_count(n, which, k):
